@@ -578,6 +578,49 @@ func (g *Gen) SetupBound(rule string) (sc BoundScenario, ok bool) {
 			return blk, a.G.C.Store.Supplement(blk, a.Child, net.HardforkV2.RequireHeight), true
 		}
 		return sc, true
+	case "v1-in-block-claim-maturity":
+		// The siacoin claim of a v1 siafund spend is created in the middle of the block with the maturity delay of any
+		// delayed output. A later v1 transaction of the same block that spends it is premature by exactly the delay:
+		// accepted only on networks without one. (The v1 twin of v2-ephemeral-parent-maturity; v1 parents created in the
+		// block are looked up by the validator itself, so there is no claimed maturity to compare.)
+		if child >= net.HardforkV2.RequireHeight {
+			return sc, false
+		}
+		sc.From, sc.To = child, child+2
+		sc.Want = func(a *Adv) bool { return net.MaturityDelay == 0 }
+		sc.Build = func(a *Adv) (types.Block, consensus.V1BlockSupplement, bool) {
+			none := func() (types.Block, consensus.V1BlockSupplement, bool) {
+				return types.Block{}, consensus.V1BlockSupplement{}, false
+			}
+			if !a.v1Allowed() {
+				return none()
+			}
+			bb := NewBuilder(t, a.G.C, a.G.W)
+			bb.AllowEphemeral = false
+			if !bb.V1Siafunds() || len(bb.V1) != 1 || len(bb.V1[0].SiafundInputs) != 1 {
+				return none()
+			}
+			tx1 := bb.V1[0]
+			cid := tx1.SiafundInputs[0].ParentID.ClaimOutputID()
+			var claim *ExpSC
+			for i := range bb.Exp.CreatedSC {
+				if bb.Exp.CreatedSC[i].ID == cid {
+					claim = &bb.Exp.CreatedSC[i]
+				}
+			}
+			if claim == nil || claim.Value.IsZero() {
+				return none()
+			}
+			lock, known := a.G.W.Locks[claim.Address]
+			if !known || lock.UC == nil || !lock.Spendable(false, a.Child, MedianTimestamp(a.CS)) {
+				return none()
+			}
+			tx2 := types.Transaction{SiacoinInputs: []types.SiacoinInput{{ParentID: cid, UnlockConditions: *lock.UC}},
+				SiacoinOutputs: []types.SiacoinOutput{{Value: claim.Value, Address: types.Address{0xBB}}}}
+			SignV1(a.CS, &tx2, false)
+			return a.manyV1(tx1, tx2)
+		}
+		return sc, true
 	case "v1-until-require-height":
 		R := net.HardforkV2.RequireHeight
 		if R < child+1 || R > child+6 {
@@ -644,7 +687,7 @@ var BoundRules = []string{
 	"v1-output-maturity", "v2-output-maturity", "v1-unlock-conditions-timelock", "v2-uc-policy-timelock", "v1-signature-timelock", "v1-signature-timelock-partial-coverage",
 	"v2-above", "v2-after", "v1-revision-window-start", "v1-revision-window-unchanged", "v1-proof-window", "v1-formation-window-start", "v1-proof-after-window-revised-in-block",
 	"v2-revision-proof-height", "v2-proof-height", "v2-expiration-height", "v2-formation-proof-height",
-	"v1-until-require-height", "v2-from-allow-height", "v2-ephemeral-parent-maturity",
+	"v1-until-require-height", "v2-from-allow-height", "v2-ephemeral-parent-maturity", "v1-in-block-claim-maturity",
 }
 
 // EmptyBlock applies an honest block without transactions (used to advance the chain).
